@@ -15,7 +15,7 @@ def run(pid, tier, seed):
     chk.rule = (f"{n_groups} variant groups (gen/attrgen.c10_groups): for every supported serde key at container/variant/field level "
                 "{ts(X)} vs {serde(X)}; {ts(X)} vs {ts(X), serde(X')} in both orders; one list vs reversed vs split lists vs ts list; "
                 "an unsupported serde key (bare word / key = value / call form, 24 kinds) inserted before, after, around and in lists of "
-                "its own. Every member is expanded in-process by the real derive; canonicalised expansions (visit_dependencies "
+                "its own; each group alone or combined with another ts attribute (type, as, export, export_to, optional_fields, inline). Every member is expanded in-process by the real derive; canonicalised expansions (visit_dependencies "
                 "statements and where-predicates sorted) must be equal within a group and never an error or panic. Four builds of the "
                 "macro crate: serde-compat on/off x no-serde-warnings on/off; with serde-compat off every serde-only member must equal "
                 "the attribute-free item. distinct_nontrivial = distinct (group kind, level, key, unknown key, configuration)")
@@ -45,9 +45,9 @@ def run(pid, tier, seed):
                 chk.note_inconclusive(f"group {gi} incomplete in configuration {cfg}")
                 continue
             chk.add_eval(len(got))
-            chk.add_distinct((g["kind"], g["level"], g["key"], g.get("unknown"), cfg))
+            chk.add_distinct((g["kind"], g["level"], g["key"], g.get("unknown"), g.get("context"), cfg))
             chk.hist("groups:" + cfg, g["kind"])
-            base_tags = [g["kind"], g["level"], g["key"], cfg] + ([g["unknown_class"], "unknown:" + g["unknown"].split("=")[0].split("(")[0].strip()]
+            base_tags = [g["kind"], g["level"], g["key"], cfg] + ([f"with:{g['context']}"] if g.get("context") else []) + ([g["unknown_class"], "unknown:" + g["unknown"].split("=")[0].split("(")[0].strip()]
                                                               if g.get("unknown") else [])
             srcs = dict(g["members"])
             srcs["plain"] = g["plain"]
@@ -55,7 +55,7 @@ def run(pid, tier, seed):
             for label, e in got.items():
                 if e["outcome"] != "ok":
                     # ts-spelled members may legitimately be rejected? no: every member of a group is a valid combination
-                    key = f"C10|{e['outcome']}|{g['kind']}|{g['level']}|{g['key']}|{g.get('unknown_class')}|{cfg}"
+                    key = f"C10|{e['outcome']}|{g['kind']}|{g['level']}|{g['key']}|{g.get('unknown_class')}|{g.get('context')}|{cfg}"
                     chk.violation(key, f"[{cfg}] `{srcs[label]}` -> {e['outcome']}: {e['msg'][:200]}",
                                   {"source": srcs[label], "outcome": e["outcome"], "msg": e["msg"], "config": cfg}, tags=base_tags)
             oks = {l: e["canon"] for l, e in got.items() if e["outcome"] == "ok"}
@@ -64,7 +64,7 @@ def run(pid, tier, seed):
                 ref = oks.get(ref_label)
                 for label, _src in g["members"][1:]:
                     if label in oks and ref is not None and oks[label] != ref:
-                        key = f"C10|differs|{g['kind']}|{g['level']}|{g['key']}|{label}|{g.get('unknown_class')}|{cfg}"
+                        key = f"C10|differs|{g['kind']}|{g['level']}|{g['key']}|{label}|{g.get('unknown_class')}|{g.get('context')}|{cfg}"
                         chk.violation(key, f"[{cfg}] `{srcs[label]}` expands differently from `{srcs[ref_label]}`",
                                       {"a": srcs[ref_label], "b": srcs[label], "expansion_a": ref[:3000], "expansion_b": oks[label][:3000],
                                        "config": cfg}, tags=base_tags + [label])
